@@ -292,8 +292,8 @@ func genVariants(r *hx.Rng, l *Log, idx int, tier string) []*Variant {
 		vs = append(vs, v16, v17, v18)
 	}
 	if l.Policy == "local" && haveSweep {
-		// (pebble: with the mem engine the sweep itself deadlocks as soon as expired keys of two data
-		// types are pending, each type's write batch holding the radix tree's writer lock)
+		// (on pebble; with the mem engine the sweep itself dead-locked as soon as expired keys of two data
+		// types were pending, until repo fix 0aa1de4 of the C10 builder)
 		// the log lies years after the node's clock: nothing is past expiry there, the sweep must remove nothing
 		v12 := mk(12, "pebble", partOne(n))
 		v12.Expire = sweep
